@@ -264,3 +264,26 @@ theorem C02_redact_bytes (c : Codec) (salt : Nat → String)
   obtain ⟨a1, a2, a3⟩ := wire_hyps c salt decodeClaims jwtDecode kbDecode addr _ Tn ds strs h hc hperm
   exact redact_verify_issued (c.rt decodeClaims jwtDecode kbDecode) (c.digestFn "sha-256" salt) paths addr ms
     Tn ds decoys jwt header strs R policy wf hplain hk1 hk2 hp h hne hdec hsig a1 hnd a2 hj a3
+
+/-- **`Holder::presentation` and `Holder::build` on the bytes of a compact JWS.** `C02_presentation_build`
+with the issuer-signed JWT written out as the JWS compact serialisation the JWT library produces
+(`base64url(header).base64url(payload).base64url(signature)`, `Codec.compact`) and
+`decode_claims_no_verification` as the crate does it (base64url, then JSON text: `Codec.decodeClaims`):
+that the JWT holds no `~`, that `get_jwt_part` finds its three segments and that the unverified
+reading of the middle one yields the signed payload are proved (`compact_no_tilde`,
+`getJwtPart_compact`, `decodeClaims_compact`), not assumed. -/
+theorem C02_presentation_build_bytes (c : Codec) (jwtDecode : String → Outcome (J × J))
+    (kbDecode : String → J → Outcome (J × J)) (strs : List String) (header payload cl : J)
+    (sig : List UInt8) (ps : List PathEntry) (R : List String) (nonce : String) (now : Int)
+    (hc : ∀ j, c.parse (c.render j) = some j)
+    (hs : ∀ s ∈ strs, '~' ∉ s.toList)
+    (halg : (jidx payload "_sd_alg").asStr = some "sha-256")
+    (hcnf : jget? payload "cnf" = none)
+    (hr : restoreAll ((c.rt' jwtDecode kbDecode).env "sha-256") payload strs = .ok (cl, ps)) :
+    Holder.presentation (c.rt' jwtDecode kbDecode) (assemble (c.compact header payload sig) strs) =
+      .ok { sdJwt := c.compact header payload sig, paths := ps } ∧
+    Holder.build (c.rt' jwtDecode kbDecode) { sdJwt := c.compact header payload sig, paths := ps } R none nonce now =
+      .ok (assemble (c.compact header payload sig) (keptDisclosures ps R), none) :=
+  C02_presentation_build (c.rt' jwtDecode kbDecode) (c.compact header payload sig) strs header payload cl ps R
+    _ _ _ nonce now (compact_no_tilde c header payload sig) hs (getJwtPart_compact c header payload sig).1
+    (decodeClaims_compact c hc payload) halg hcnf hr
